@@ -1192,6 +1192,8 @@ func (cl *collector) defineLen(v ssa.Value, depth int) {
 			}
 		case "bytes.Buffer.Next":
 			cl.bufferNextLen(x, lt, depth) // ip_g1.go: 0 <= len <= n, == n when n <= Len() at the call
+		case "hash.Hash.Sum":
+			cl.hashSumLen(x, lt, depth) // ip_h4.go: len == len(arg) + Size() for a hash made by a known constructor
 		case "strconv.Itoa":
 			f.addLE(term{"", 1}, lt, 0)
 			f.addLE(lt, term{"", 20}, 0) // sign and 19 digits
